@@ -191,10 +191,11 @@ class SpecEval:
         assert isinstance(lam, ast.Lambda)
         names = [a.arg for a in lam.args.args]
         skolem = self.goal and which == 'forall'
-        vs = [z3.Int('%s!%s%d' % (a, 'sk' if skolem else 'q', next(_q))) for a in names]
+        # bound variables are integers; a name ending in _s is a str (paths, module names)
+        vs = [(z3.String if a.endswith('_s') else z3.Int)('%s!%s%d' % (a, 'sk' if skolem else 'q', next(_q))) for a in names]
         env = dict(self.env)
         for a, v in zip(names, vs):
-            env[a] = VInt(v)
+            env[a] = VStr(v) if a.endswith('_s') else VInt(v)
         if not skolem:
             self.eng.bound_vars.update(v.get_id() for v in vs)
         inner = SpecEval(self.eng, self.st, env, self.old, skolem)
@@ -250,7 +251,7 @@ def define(sig, body):
 
 
 def to_z(v):
-    if isinstance(v, (VInt, VBool, VBytes, VStr, VDyn, VList, VRef, VStruct, VKw, VRx)):
+    if isinstance(v, (VInt, VBool, VBytes, VStr, VDyn, VList, VRef, VStruct, VKw, VRx)) or v.kind in ('content', 'arr'):
         return v.z
     raise Untranslated('pattern term of kind %s' % v.kind)
 
